@@ -31,7 +31,7 @@ EPS = np.finfo(float).eps
 
 
 def plan(tier: str, seed: int) -> list[dict]:
-    reps = 1 if tier == "quick" else 10
+    reps = 1 if tier == "quick" else 200
     cases = []
     for rep in range(reps):
         for ident in IDENTITIES:
